@@ -56,8 +56,8 @@ def generate(prop, spec, repo, C, defs, classes, LEMMAS, mode_filter=None):
             und.append(dict(function=key, reason='missing: %s' % e, missing=True)); continue
         info['gen_s'] = round(time.time() - t0, 3)
         if opts: info['mode'] = {k: str(v) for k, v in opts.items()}
-        tag = ('[%s]' % ','.join('%s' % v for v in opts.values())) if opts else ''
-        for x in v: x.name = '%s/%s%s/%s' % (prop, key.split(':')[1], tag, x.name)
+        tag = ('[%s]' % ','.join(modetag(v) for v in opts.values())) if opts else ''
+        for x in v: x.name = '%s/%s%s/%s' % (prop, key.split(':')[1], tag, x.name); x.mode = opts
         vcs += v; infos.append(info)
     for name in spec.get('lemmas', []):
         ex = engine.Exec(repo, C, classes, defs, model_modules()); ex.all_lemmas = LEMMAS
@@ -70,7 +70,12 @@ def generate(prop, spec, repo, C, defs, classes, LEMMAS, mode_filter=None):
     return vcs, infos, und
 
 
-def run_harness(prop, mode, seed, budget, tier, extra=None, infile=None):
+def modetag(v):
+    if isinstance(v, dict): return ','.join('%s=%s' % kv for kv in sorted(v.items()))
+    return str(v)
+
+
+def run_harness(prop, mode, seed, budget, tier, extra=None, infile=None, models=None):
     """Runs the bounded stand-in / replay harness on the REAL code under /venv/bin/python."""
     env = dict(os.environ); env['PYTHONPATH'] = source.REPO + os.pathsep + VERIF
     env['PYTHONHASHSEED'] = '0'
@@ -78,10 +83,17 @@ def run_harness(prop, mode, seed, budget, tier, extra=None, infile=None):
            '--budget', str(budget), '--tier', tier]
     if infile: cmd += ['--file', infile]
     if extra: cmd += ['--focus', extra]
+    mf = None
+    if models:
+        import tempfile
+        mf = tempfile.NamedTemporaryFile('w', suffix='.json', delete=False); json.dump(models, mf, default=str); mf.close()
+        cmd += ['--models', mf.name]
     try:
         r = subprocess.run(cmd, env=env, capture_output=True, text=True, timeout=budget * 4 + 600)
     except subprocess.TimeoutExpired:
         return dict(error='harness timeout')
+    finally:
+        if mf: os.unlink(mf.name)
     try:
         return json.loads(r.stdout.strip().splitlines()[-1])
     except Exception:
@@ -156,7 +168,12 @@ def main(argv):
     focus = ','.join(sorted({v.func for v in refuted})) or None
     hres = None
     if spec.get('harness'):
-        hres = run_harness(prop, 'search', seed, budget, tier, extra=focus)
+        models = []
+        for v in refuted:
+            if v.model_dict:
+                m = dict(v.model_dict); m['__mode__'] = v.mode.get('argv_fixed') if v.mode else None; m['__obligation__'] = v.name
+                models.append(m)
+        hres = run_harness(prop, 'search', seed, budget, tier, extra=focus, models=models[:20])
         if hres.get('error'):
             print('ERROR: bounded harness: ' + hres['error'])
             write_evidence(prop, tier, seed, spec, vcs, infos, und, hres, backends, time.time() - t0, 0, note='harness error')
